@@ -66,7 +66,7 @@ MODELLED = [
     "modelled not verified: pyparsing tokenisation and name lexing (the model starts from trees), str.lower(), the simplifier "
     "(inputs are its fixed points; `when` conditions are compared after simplifying both sides), ProblemKind computation and "
     "name mangling (parameters), type checking and static effect-conflict rejection inside the model builder, "
-    "Python set order of :constants (sorted on both sides), the order of Problem.user_types (type table compared sorted), "
+    "Python set order of :constants and of the variables of a quantifier the simplifier rebuilt (sorted on both sides), the order of Problem.user_types (type table compared sorted), "
     "the external `pddl` package",
 ]
 BUDGET_S = {"quick": 50, "thorough": 420}
@@ -207,7 +207,7 @@ def impl(payload):
         except Exception as e:
             return "error"
         rb = cp.canon_read_problem(upp.enc_problem(Q), const_names_of(dt))
-        return ["ok", cp.canon_domain_tree(dt), pt, rb, "T"]
+        return ["ok", cp.canon_domain_tree(dt), cp.sort_quant_tree(pt), rb, "T"]
     if kind == "read":
         dom, prob = read_texts(payload)
         try:
@@ -253,7 +253,7 @@ def compare(m, a):
     """model answer vs code answer"""
     if isinstance(m, list) and m and m[0] == "ok" and isinstance(a, list) and a and a[0] == "ok" and len(m) == 5 and len(a) == 5:
         consts = const_names_of(m[1])
-        return (cp.canon_domain_tree(m[1]) == a[1] and m[2] == a[2]
+        return (cp.canon_domain_tree(m[1]) == a[1] and cp.sort_quant_tree(m[2]) == a[2]
                 and cp.canon_read_problem(m[3], consts) == a[3] and m[4] == a[4])
     if isinstance(m, list) and m and m[0] == "ok" and isinstance(a, list) and a and a[0] == "ok" and len(m) == 2 and len(a) == 2:
         try:
